@@ -306,7 +306,7 @@ func vfBuildState(env *vfEnv, key [16]byte, H int, W int, holderProto int, waite
 		c.Count = vfU16(p + ".count")
 		c.Rcount = vfU8(p + ".rcount")
 		c.TimeoutFlag = vfU16(p+".tflag") & 0x0010
-		c.Timeout = 4
+		c.Timeout = uint16(4 + 5*i) // the first queued request times out at +5 s, the second at +10 s
 		c.Expried, c.ExpriedFlag = 3, 0x0200
 		n := len(env.replies)
 		env.lock(waiterProto, c)
